@@ -594,7 +594,7 @@ Proof.
       destruct (HC nd d n Hin Hd' Hn) as [H|H]; [|right; apply dep_ok_app; exact H].
       unfold tf_map. destruct (has_type nd) eqn:Et; [|left; exact H]. simpl.
       destruct (str_in n (names_of buf)) eqn:Es.
-      * right. right. split; [eapply has_type_witness; eauto|].
+      * right. right. split; [exact (has_type_witness D g acc nd d HB Hin Hd' Et)|].
         apply str_in_In in Es. unfold names_of in Es. apply in_map_iff in Es as [e [E1 E2]].
         exists e. split; [apply in_or_app; right; apply sort_by_pos_In; exact E2|]. split; [exact E1|].
         rewrite Forall_forall in Hbuf. destruct (Hbuf e E2) as [t [_ [_ ->]]]. reflexivity.
